@@ -39,3 +39,12 @@ NATIVE['n_c14_type_sizes'] = dict(
     bound='12 struct shapes at the i16 size boundary x {struct, enum}',
     functions=[('crates/cairo-lang-sierra-type-size/src/lib.rs', None, 'get_type_size_map')],
 )
+NATIVE['n_c14_specialize'] = dict(
+    crate='cairo-lang-sierra',
+    host='crates/cairo-lang-sierra/src/program_registry.rs',
+    harness='native/cairo-lang-sierra/n_c14_specialize.rs',
+    props={'C14'},
+    bound='every generic libfunc id (CoreLibfunc::supported_ids) and every generic type id x all generic-argument lists of length 0..=2 over a universe '
+          'of boundary types and values (about 45 in quick, 80 in thorough), length 3 over 8',
+    functions=[('crates/cairo-lang-sierra/src/program_registry.rs', 'impl<TType: GenericType, TLibfunc: GenericLibfunc> ProgramRegistry<TType, TLibfunc>', 'new')],
+)
